@@ -245,8 +245,10 @@ Definition tx_verdict (tbl : list (key * N)) (cap : N) (l : list (ann * op)) (gb
         else if negb (inv_core_b s' && ntc_b s') then 5 else 6
   | None => 3
   end.
-Definition tx_ok (tbl : list (key * N)) (cap : N) (l : list (ann * op)) (gb ga : graph) : bool :=
-  let v := tx_verdict tbl cap l gb ga in (v =? 0) || (v =? 7).
+(* allow7: the trigger step_node_undefer_reattached fired in this transaction (decided from the real tables),
+   the one place where model/Graph.v is known to lag behind the code; everywhere else only verdict 0 passes *)
+Definition tx_ok (allow7 : bool) (tbl : list (key * N)) (cap : N) (l : list (ann * op)) (gb ga : graph) : bool :=
+  let v := tx_verdict tbl cap l gb ga in (v =? 0) || (allow7 && (v =? 7)).
 (* the certificate of reach_revert (proofs/SchedGraphMachine.v): the snapshot before a real revert_optional_steps is
    coupled to a stored workflow satisfying J and has unique file ids; so is the model's result (which the revert
    correspondence compares with the real tables) *)
@@ -272,12 +274,13 @@ def tbl_term(tbl: dict[int, tuple[str, str]]) -> str:
     return clist(f"({ckey(k, l)}, {i})" for i, (k, l) in sorted(tbl.items()))
 
 
-def tx_case(ev: dict, before: dict, after: dict, ops, to_coq) -> str:
+def tx_case(ev: dict, before: dict, after: dict, ops, to_coq, allow_state_certificate: bool = False) -> str:
     """Boolean Gallina term: the projection of the transaction lands on the real columns."""
     tbl = tbl_term(key_table(before, after))
     tx = clist(f"({a}, {o})" for a, o in ops)
     cap = after["defer_cap"]
-    return f"tx_ok {tbl} {cap} {tx} {to_coq(norm_root(before))} {to_coq(norm_root(after))}"
+    allow = "true" if allow_state_certificate else "false"
+    return f"tx_ok {allow} {tbl} {cap} {tx} {to_coq(norm_root(before))} {to_coq(norm_root(after))}"
 
 
 def revert_case(before: dict, after: dict, to_coq) -> str:
